@@ -36,6 +36,23 @@ Theorem C03_registered_decides : forall unroll s mk xs ss mk' args,
 Proof. exact registered_decides. Qed.
 Print Assumptions C03_registered_decides.
 
+(* Expectation arguments passed by spreading a caller-owned []interface{} are captured by value at
+   registration: later writes to that slice change no expectation (the generated expecter always
+   hands mock.On a fresh slice), and a history with buffers is the history with the snapshots. *)
+Theorem C03_registration_copies_arguments : forall impl beh im mk bs mi s fixed b ss muts mk1,
+  nth_error (im_methods im) mi = Some s ->
+  expect (im_unroll im) s mk (fixed ++ getbuf b bs) ss = Ok mk1 ->
+  Forall is_bufop muts ->
+  fst (wrun impl beh im mk bs (WExpectBuf mi fixed b ss :: muts)) = mk1 /\
+  exists e, m_exp mk1 = m_exp mk ++ [e] /\ e_args e = fixed ++ getbuf b bs /\ e_method e = ms_name s.
+Proof. exact registration_copies. Qed.
+Print Assumptions C03_registration_copies_arguments.
+
+Theorem C03_buffers_resolve_to_snapshots : forall impl beh im ws mk bs,
+  wrun impl beh im mk bs ws = run_ops impl beh im mk (resolve bs ws).
+Proof. exact wrun_resolve. Qed.
+Print Assumptions C03_buffers_resolve_to_snapshots.
+
 (* Calling the method with matching arguments returns exactly the values given to Return. *)
 Theorem C03_return : forall impl beh unroll s mk fixed elems i e,
   wf_sig s -> wt_call impl s fixed elems ->
@@ -324,4 +341,16 @@ Definition x_exp (rep : Z) (tag : nat) : expectation :=
 Example C03_example_schedule :
   schedule [x_exp (-1) 0; x_exp 1 1; x_exp 2 2; x_exp 0 3; x_exp 1 4] (B "Ok") [vi 7; vb 0] 6
   = [Some 1; Some 2; Some 2; Some 3; Some 3; Some 3].
+Proof. vm_compute. reflexivity. Qed.
+
+(* a table-driven test reusing ONE []interface{} buffer: both registrations keep their own values *)
+Example C03_example_buffer_reuse :
+  snd (wrun x_impl x_beh (x_im true) (new_mock true) []
+    [ WSetBuf 1 [vt 1]; WExpectBuf 0 [vi 7; vb 0] 1 [SetReturn [vi 1; VNil]];
+      WSetBuf 1 [vt 2]; WExpectBuf 0 [vi 7; vb 0] 1 [SetReturn [vi 2; VNil]];
+      WMutate 1 0 (vt 3);
+      WOp (OCall 0 [vi 7; vb 0; vsl [vt 1]]); WOp (OCall 0 [vi 7; vb 0; vsl [vt 2]]);
+      WOp (OCall 0 [vi 7; vb 0; vsl [vt 3]]) ])
+  = [ (Done, []); (Done, []); (Returned [vi 1; VNil], []); (Returned [vi 2; VNil], []);
+      (TestFailed, [EvErrorf EClosest; EvFailNow]) ].
 Proof. vm_compute. reflexivity. Qed.
